@@ -188,6 +188,11 @@ def validators_alone(ctx: Ctx, sub, n: int) -> Dict[str, int]:
             raise RuntimeError("compare")
         __ge__ = __lt__ = __gt__ = __le__
 
+    class Liar(int):     # an int whose comparisons always say yes
+        def __le__(self, other):
+            return True
+        __ge__ = __lt__ = __gt__ = __le__
+
     class Unprintable:   # cannot be turned into text at all
         def __str__(self):
             raise RuntimeError("no text")
@@ -220,6 +225,8 @@ def validators_alone(ctx: Ctx, sub, n: int) -> Dict[str, int]:
         st.frozensets(st.integers(), max_size=2), st.sets(st.text(max_size=2), max_size=2), st.binary(max_size=3).map(bytearray),
         st.sampled_from([range(3), "%s", "%d %d", "{}", "{0}", "{value}", b"%s", slice(1, 2), Ellipsis, NotImplemented]),
         # values whose text is long, very long (beyond the interpreter's int-to-str limit), or not available
+        # int subclasses that define comparisons of their own (in and out of range)
+        st.sampled_from([Touchy(5), Touchy(-1), Touchy(2**40), Liar(7), Liar(2**40), Liar(-(2**40)), Liar(-1)]),
         st.sampled_from([10**5000, -(10**5000), 10**4299, 2**20000, "x" * 100000, Unprintable(), UnprintableInt(2**40), UnprintableInt(-1)]),
     )
     for fname, (lo, hi) in (("integer_validator", RANGES["integer"]), ("uinteger_validator", RANGES["uinteger"])):
@@ -244,7 +251,7 @@ def validators_alone(ctx: Ctx, sub, n: int) -> Dict[str, int]:
                 aname = attr.name if hasattr(attr, "name") else str(attr)
                 if type(inst).__qualname__ not in msg or aname not in msg:
                     ctx.finding(("message", fname, "-"), f"ValueError does not name class/attribute: {msg!r}", case)
-                if isinstance(v, int) and not isinstance(v, bool) and lo <= v <= hi:
+                if isinstance(v, int) and not isinstance(v, bool) and lo <= int.__index__(v) <= hi:
                     ctx.finding(("wrong-verdict", fname, "rejects-in-range"), f"{shown} rejected", case)
                 return
             except Exception as e:
@@ -254,7 +261,7 @@ def validators_alone(ctx: Ctx, sub, n: int) -> Dict[str, int]:
             if r is not True:
                 ctx.finding(("wrong-return", fname, "-"), f"returned {r!r} for {shown}", case)
             if isinstance(v, int) and not isinstance(v, bool):
-                if not (lo <= v <= hi):
+                if not (lo <= int.__index__(v) <= hi):   # (the number itself, whatever comparisons the subclass defines)
                     ctx.finding(("wrong-verdict", fname, "accepts-out-of-range"), f"{shown} accepted", case)
             elif not isinstance(v, bool):
                 # a value that is not an int at all must not pass a range validator
